@@ -57,7 +57,7 @@ func c18Do(w *World, cmd string, n int) {
 	}
 }
 
-func c18Body(c c18cfg, controlled bool) func(w *World) {
+func c18Body(c c18cfg, controlled bool, leak *map[string]int) func(w *World) {
 	const host = "a.example.com"
 	return func(w *World) {
 		for _, n := range []string{"oa:80", "ra:80", "n1:80", "n2:80", "r1:80", "r2:80", "x1:80", "x2:80", "y1:80", "y2:80"} {
@@ -123,14 +123,33 @@ func c18Body(c c18cfg, controlled bool) func(w *World) {
 		// the proxy must still answer commands and requests afterwards
 		w.List()
 		w.Do(ReqSpec{ID: "after", Host: "b.example.com"})
+		if controlled && leak != nil {
+			// nothing keeps running on behalf of targets that are no longer (or never were) in service
+			from := w.Net.Mark("settle-start", "")
+			time.Sleep(3*vI + 50*time.Millisecond)
+			live := routerSummary(w.Router)
+			for _, e := range w.Net.Events() {
+				if e.Seq > from && (e.Kind == "probe" || e.Kind == "probe-refused") && !strings.Contains(live, e.Target) {
+					(*leak)[e.Target]++
+				}
+			}
+		}
 	}
 }
 
 func c18Scenario(c c18cfg) *Scenario {
 	sc := &Scenario{Name: "C18 " + c.String(), Horizon: 40 * time.Second}
-	sc.Run = c18Body(c, true)
+	leak := map[string]int{}
+	body := c18Body(c, true, &leak)
+	sc.Run = func(w *World) {
+		leak = map[string]int{}
+		body(w)
+	}
 	sc.Check = func(w *World) []Violation {
 		var vs []Violation
+		if len(leak) > 0 {
+			vs = append(vs, Violation{"C18", fmt.Sprintf("probes-to-targets-not-in-service %s||%s", c.a, c.b), fmt.Sprintf("after both commands returned these targets are still probed although no service uses them: %v", leak)})
+		}
 		for _, n := range w.Notes {
 			vs = append(vs, Violation{"C18", "setup", n})
 		}
@@ -202,7 +221,7 @@ func c18RacePass(t *testing.T, job *Job, res *Result, tier string) {
 		}
 		for r := 0; r < reps; r++ {
 			n++
-			body := c18Body(c, false)
+			body := c18Body(c, false, nil)
 			synctest.Test(t, func(t *testing.T) {
 				w := NewWorld(t, false)
 				body(w)
